@@ -38,6 +38,9 @@ type c20Case struct {
 	Seed    uint64            `json:"seed,omitempty"`
 	// Mark: decrypt-redump only: the image also carries a 3k3y watermark ("enc" | "dec") in its plain first region
 	Mark string `json:"mark,omitempty"`
+	// KeepKey: decrypt-redump only: the key file stays beside the place where the output is served from
+	// ("" | "adjacent" | "redkey")
+	KeepKey string `json:"keep_key,omitempty"`
 	// ServeIn: directory under a served root where the output is placed for the serve-back check
 	ServeIn string `json:"serve_in"`
 }
@@ -60,6 +63,9 @@ func genC20(t *rapid.T) c20Case {
 	c.Regions = genRegions(t, c.Sectors)
 	if c.Tool == "decrypt-redump" {
 		c.Mark = rapid.SampledFrom([]string{"", "", "enc", "dec"}).Draw(t, "mark")
+		// KeepKey is not generated: with the key file of its name still around, the decrypted output is an image
+		// "with a key and an invalid (cleared) region table", which C10 wants rejected - the server refuses to open
+		// it until the key file is removed (DESIGN 6.5, not accepted)
 	}
 	if c.Tool == "decrypt-3k3y" || c.Mark != "" {
 		// the watermark area (sectors 1..2) must lie in the first plain region
@@ -292,6 +298,19 @@ func runC20(c c20Case, st *hx.Stats) error {
 	os.MkdirAll(dir, 0o755)
 	if err := os.WriteFile(filepath.Join(dir, "game.iso"), got, 0o644); err != nil {
 		return err
+	}
+	if c.KeepKey != "" && strings.HasPrefix(strings.ToLower(c.ServeIn), "ps3iso") {
+		// the decrypted image replaces the encrypted one and its key file is still around: the image says about
+		// itself (cleared region map) that nothing in it is encrypted
+		kd := dir
+		if c.KeepKey == "redkey" {
+			kd = filepath.Join(root, "REDKEY", strings.TrimPrefix(strings.TrimPrefix(filepath.ToSlash(c.ServeIn), "PS3ISO"), "ps3iso"))
+		}
+		os.MkdirAll(kd, 0o755)
+		if err := os.WriteFile(filepath.Join(kd, "game.dkey"), []byte(hex.EncodeToString([]byte(c.Key))), 0o644); err != nil {
+			return err
+		}
+		st.Label("served back with its key file still present: " + c.KeepKey)
 	}
 	tg, err := hx.StartInprocFs(afero.NewBasePathFs(afero.NewOsFs(), root), hx.InprocOpts{})
 	if err != nil {
